@@ -214,6 +214,21 @@ def tag_ids(case):
     return ids
 
 
+def tag_shared(case):
+    """ tag -> True when its result list is compared as a multiset (sorted):
+    several registered definitions share the tag, or it belongs to a
+    sequence definition (sections come back in dict order).  The results of
+    a tag owned by ONE simple definition are compared in collection order:
+    the property demands ascending line order. """
+    out = {}
+    for tag in tag_ids(case):
+        owners = [i for i in set(case['reg'])
+                  if case['defs'][i]['tag'] == tag]
+        out[tag] = len(owners) != 1 or \
+            bool(case['defs'][owners[0]].get('seq'))
+    return out
+
+
 def tabulate(case, con_outcome=None):
     """ the oracle tables of a case.  Returns (list of decoded lines' tables,
     pattern ids, hint ids, value ids).  A table = (matches, hints, cons) with
@@ -298,7 +313,9 @@ def coq_case(case, tables, pids, hids, consts="TRANSIT_MAX, "
             seen.add(i)
             uds.append("(" + coq_def(i + 1, case['defs'][i], pids, hids, tids)
                        + ")")
-    tags = vlib.zl(list(tids.values()))
+    shared = tag_shared(case)
+    tags = "[" + "; ".join(f"({tids[t]}, {'true' if shared[t] else 'false'})"
+                           for t in tids) + "]"
     return (f"({consts}, {tags}, {ds}, [" + "; ".join(uds) + "], "
             + coq_lines(tables) + ")")
 
@@ -350,9 +367,13 @@ Definition res_jv (r : result) : jv := JL [JZ (r_ln r); parts_jv (r_parts r)].
 Definition obs_jv (o : Z * list (Z * Z)) : jv :=
   JL [JZ (fst o); parts_jv (snd o)].
 Definition case : Type :=
-  Z * Z * list Z * list sdef * list sdef * list tline.
-(* observable: number of results, and per tag the canonically ordered list
-   of (line number, [(part index, value)]) *)
+  Z * Z * list (Z * bool) * list sdef * list sdef * list tline.
+(* a tag owned by one definition: collection order as it is (the property
+   demands ascending line numbers); a shared tag: canonical order *)
+Definition canon (shared : bool) (l : list jv) : list jv :=
+  if shared then jsort l else l.
+(* observable: number of results, and per tag the list of
+   (line number, [(part index, value)]), run-length encoded *)
 Definition run_model (c : case) : jv :=
   let '(mx, nb, tags, ds, uds, lines) := c in
   match simple_execute tline t_omatch t_ohint t_ocon mx nb ds lines with
@@ -360,15 +381,15 @@ Definition run_model (c : case) : jv :=
   | TaskOk bs =>
       let rs := concat bs in
       JL [JZ (lenZ rs);
-          JL (map (fun t => JL (rle (jsort (map res_jv
-                 (filter (fun r => r_tag r =? t) rs))))) tags)]
+          JL (map (fun t => JL (rle (canon (snd t) (map res_jv
+                 (filter (fun r => r_tag r =? fst t) rs))))) tags)]
   end.
 Definition run_spec (c : case) : jv :=
   let '(mx, nb, tags, ds, uds, lines) := c in
   let per d := spec_constrained tline t_omatch t_ohint t_ocon d lines in
   JL [JZ (lenZ (flat_map per uds));
-      JL (map (fun t => JL (rle (jsort (flat_map
-             (fun d => if s_tag d =? t then map obs_jv (per d) else [])
+      JL (map (fun t => JL (rle (canon (snd t) (flat_map
+             (fun d => if s_tag d =? fst t then map obs_jv (per d) else [])
              uds)))) tags)].
 """
 
@@ -427,6 +448,7 @@ def build_searchdefs(case, constraints=None):
 def observe(res, path, case, vals):
     """ canonical observable of a SearchResultsCollection for one file """
     tids = tag_ids(case)
+    shared = tag_shared(case)
     per_tag = []
     for tag in tids:
         lst = []
@@ -439,7 +461,7 @@ def observe(res, path, case, vals):
                 continue
             lst.append([r.linenumber,
                         [[i, vals(v)] for i, v in zip(idxs, values)]])
-        per_tag.append(rle(sorted(lst)))
+        per_tag.append(rle(sorted(lst) if shared[tag] else lst))
     return [len(res.find_by_path(path)), per_tag]
 
 
@@ -632,6 +654,11 @@ def sig_of(case, want, other):
             return "missing-results"
         for wt, ot in zip(want[1], other[1]):
             if wt != ot:
+                def flat(t):
+                    return sorted((x[0] + k, str(x[2])) for x in t
+                                  for k in range(x[1]))
+                if flat(wt) == flat(ot):
+                    return "results-out-of-order"
                 if [x[0] for x in wt] != [x[0] for x in ot]:
                     return "wrong-line-numbers"
                 return "wrong-captures"
@@ -697,6 +724,12 @@ def run(chk):
     for case, want in done[:1]:
         chk.sample({'file_level_case': case,
                     'implementation': brief(want, 600)})
+    # a constrained neighbour registered first must not hide lines from the
+    # other searches of the file
+    ncases = [c07.gen_neighbour_case(rng) for _ in range(50 if chk.quick
+                                                         else 500)]
+    c07.evaluate(chk, ncases, 'c01nb',
+                 nontrivial=lambda case, tables, pos, want: want[0] > 0)
     # real constants, > NUM_BUFFERED_RESULTS + MAX results
     import searchkit.task as T
     nbuf, mx = T.NUM_BUFFERED_RESULTS, T.QueueTransitBuffer.MAX
